@@ -127,13 +127,21 @@ def run_property(pid, tier='quick', seed=0, explain=None):
     if bad:
         raise MachineryError('analysis preconditions R00 not met: ' + '; '.join(bad[:5]))
     mod = importlib.import_module('sa.rules.' + pid)
-    mod.run(ctx)
-    if tier == 'thorough':
-        if hasattr(mod, 'run_thorough'):
-            mod.run_thorough(ctx)
-        thorough_extras(ctx, pid, root, facts)
     known = load_known()
     open_keys = {e['key']: e for e in known.get('open', []) if e.get('property') == pid}
+    try:
+        mod.run(ctx)
+        if tier == 'thorough':
+            if hasattr(mod, 'run_thorough'):
+                mod.run_thorough(ctx)
+            thorough_extras(ctx, pid, root, facts)
+    except MachineryError as e:
+        # A definite violation found before the analysis had to stop stays a definite violation (the construct that broke
+        # the rule is usually also what the later anchor or instance count misses); without one the run fails closed.
+        if not any(v['key'] not in open_keys for v in ctx.violations):
+            raise
+        ctx.note('analysis stopped early: %s' % e)
+        print('  note     analysis stopped after the violations below: %s' % str(e)[:300])
     new = []
     known_hit = []
     for v in ctx.violations:
